@@ -5,11 +5,13 @@ go 1.26.2
 require (
 	github.com/dolthub/go-mysql-server v0.0.0
 	github.com/dolthub/vitess v0.0.0-20260819175407-19559ab533b7
+	github.com/go-sql-driver/mysql v1.9.3
 	github.com/sirupsen/logrus v1.8.3
 	golang.org/x/sync v0.20.0
 )
 
 require (
+	filippo.io/edwards25519 v1.1.1 // indirect
 	github.com/cespare/xxhash/v2 v2.3.0 // indirect
 	github.com/cockroachdb/apd/v3 v3.2.3 // indirect
 	github.com/dolthub/flatbuffers/v23 v23.3.3-dh.2 // indirect
